@@ -795,6 +795,43 @@ func genMeshSDF(rng *rand.Rand, kind int) *primShape {
 
 // ---------------------------------------------------------------------------- generators: solids only
 
+// genSmoothJoin: two or three blocks whose smooth fillet bulges beyond their common box (tops flush, a
+// small gap): the box that SmoothJoin / SmoothJoinV2 impose must not cut the fillet.  The "underlying
+// definition" is the same join with one more, far away, tiny operand: it does not take part in any blend
+// near the blocks (only the two nearest operands do, and it is more than the radius away) but it makes
+// the imposed box huge.
+func genSmoothJoin(rng *rand.Rand, kind int) *primShape {
+	h := float64(ri(rng, 1, 2))
+	gap := float64(ri(rng, 0, 2)) / 4
+	r := []float64{1, 2, 1.5}[kind%3]
+	a := model3d.NewRect(model3d.XYZ(-2, -1, 0), model3d.XYZ(0, 1, h))
+	b := model3d.NewRect(model3d.XYZ(gap, -1, 0), model3d.XYZ(gap+2, 1, h))
+	far := model3d.NewRect(model3d.XYZ(40, 40, 40), model3d.XYZ(40.25, 40.25, 40.25))
+	far2 := model3d.NewRect(model3d.XYZ(-40, -40, -40), model3d.XYZ(-40.25, -40.25, -40.25))
+	v2 := kind%2 == 1
+	name := fmt.Sprintf("two blocks h=%g gap=%g r=%g", h, gap, r)
+	var tight, wide model3d.Solid
+	mk := func() {
+		if tight != nil {
+			return
+		}
+		if v2 {
+			tight = model3d.SmoothJoinV2(r, a, b)
+			wide = model3d.SmoothJoinV2(r, a, b, far, far2)
+		} else {
+			tight = model3d.SmoothJoin(r, a, b)
+			wide = model3d.SmoothJoin(r, a, b, far, far2)
+		}
+	}
+	site := "model3d.SmoothJoin"
+	if v2 {
+		site = "model3d.SmoothJoinV2"
+	}
+	s := lazySolid3(site, name, func() model3d.Solid { mk(); return tight })
+	s.def = func(p pvec) bool { mk(); return wide.Contains(v3c(p)) }
+	return s
+}
+
 // genDegenerateTriangle: a 2-D triangle with collinear or repeated vertices is accepted by the constructor
 // (it stores a pseudo-inverse); whatever it contains must still lie inside its reported box
 func genDegenerateTriangle(rng *rand.Rand, kind int) *primShape {
@@ -1081,8 +1118,10 @@ func genToolbox(rng *rand.Rand, kind int) *primShape {
 		if rng.Intn(4) == 0 {
 			dir = [3]int{}
 		}
-		return solidOnly2("toolbox3d.Teardrop2D", fmt.Sprintf("c=%v r=%v dir=%v", p1[:2], r, dir[:2]),
-			&toolbox3d.Teardrop2D{Center: model2d.XY(float64(p1[0]), float64(p1[1])), Radius: r, Direction: v2c(i3f(dir))})
+		// the direction need not be a unit vector: short, long and unit ones
+		dscale := []float64{1, 0.125, 0.3, 5}[rng.Intn(4)]
+		return solidOnly2("toolbox3d.Teardrop2D", fmt.Sprintf("c=%v r=%v dir=%v*%g", p1[:2], r, dir[:2], dscale),
+			&toolbox3d.Teardrop2D{Center: model2d.XY(float64(p1[0]), float64(p1[1])), Radius: r, Direction: v2c(i3f(dir)).Scale(dscale)})
 	case 2:
 		return lazySolid3("toolbox3d.Teardrop3D", fmt.Sprintf("p1=%v p2=%v r=%v", p1, p2, r),
 			func() model3d.Solid { return toolbox3d.Teardrop3D(P1, P2, r) })
@@ -1798,7 +1837,7 @@ func init() {
 			shapes = append(shapes, genPolytope(rng, i), genMetaball3(rng, i))
 		}
 		for i := 0; i < 3*n; i++ {
-			shapes = append(shapes, genMetaball2(rng, i), genBitmap(rng), genDegenerateTriangle(rng, i))
+			shapes = append(shapes, genMetaball2(rng, i), genBitmap(rng), genDegenerateTriangle(rng, i), genSmoothJoin(rng, i))
 		}
 		for i := 0; i < 16*((n+3)/4); i++ {
 			shapes = append(shapes, genToolbox(rng, i))
